@@ -37,3 +37,31 @@ Example C05_monitor_rejects_unconsented_request :
 Proof. vm_compute. repeat split. Qed.
 
 Print Assumptions C05_consent_monitor_accepts_every_model_trace.
+
+(* ---- "reboots only after an install with no failed app", by the installer's own answer (Model/Monitors5b.v step5b) ----
+   step5 above learns of failed apps from the InstallerError events the machine itself emits; step5b looks at what the
+   installer answered instead: the reboot-needed question and the wait for the reboot are accepted only after a
+   perform_install whose answer has no failure among its first n results, n = the number of apps the latest response
+   offered an update (a failure the machine attributes to the wrong app, or drops, is therefore seen). *)
+Require Import Verif.Model.Monitors5b Verif.Proofs.C05bProof Verif.Model.Json.
+Theorem C05_reboot_only_after_an_install_with_no_failed_app :
+  forall ep cfg url cup apps e, e_trace e = [] ->
+    accepts step5b init5b (run_case ep cfg url cup apps e) = true.
+Proof. exact model_accepted_c05b. Qed.
+Section Examples5b.
+  Let d2 : doc := {| d_daystart := None;
+                     d_apps := [{| r_id := s2b "a"; r_cohort := cohort_none; r_uc := Some (false, None) |};
+                                {| r_id := s2b "b"; r_cohort := cohort_none; r_uc := Some (true, Some (s2b "2.0")) |}] |}.
+  Let perf (rs : list ares) := AInstaller (IPerform (s2b "p")) (IPerformed {| pa_progress := []; pa_results := rs |}).
+  Example C05_reboot_monitor :
+    (* one app offered; it failed: no reboot may be considered *)
+    accepts step5b init5b [AEvent (EvServerResponse d2); perf [RFailed; RInstalled]; APolicy (QRebootNeeded (s2b "p")) (PBool true)] = false
+    /\ accepts step5b init5b [AEvent (EvServerResponse d2); perf [RFailed; RInstalled]; AEvent (EvState WaitingForReboot)] = false
+    (* no install at all *)
+    /\ accepts step5b init5b [AEvent (EvServerResponse d2); AEvent (EvState WaitingForReboot)] = false
+    (* it installed (results beyond the offered apps do not count) *)
+    /\ accepts step5b init5b [AEvent (EvServerResponse d2); perf [RInstalled; RFailed]; APolicy (QRebootNeeded (s2b "p")) (PBool true);
+                               AEvent (EvState WaitingForReboot)] = true.
+  Proof. vm_compute. repeat split. Qed.
+End Examples5b.
+Print Assumptions C05_reboot_only_after_an_install_with_no_failed_app.
